@@ -36,6 +36,7 @@ type UnitResult struct {
 	Obs      []*Oblig
 	Problems []string
 	Assumed  []string
+	Unknown  []string // contract names that resolved to nothing
 	Prelude  string
 }
 
@@ -204,6 +205,9 @@ func (x *Exec) makeEnv(sig *types.Signature, recvName string, self Term, entryVa
 			}
 		}
 		env.lookup = func(name string) (Term, bool) {
+			if r, ok := x.rename[name]; ok {
+				name = r
+			}
 			var best types.Object
 			for o := range st.vars {
 				if o.Name() != name {
@@ -232,7 +236,12 @@ func (x *Exec) makeEnv(sig *types.Signature, recvName string, self Term, entryVa
 
 // verifyUnit runs one unit and returns its obligations.
 func verifyUnit(ld *Loader, db *ContractDB, specs *SpecLib, u *Unit, prop string) (res *UnitResult) {
+	return verifyUnitRenamed(ld, db, specs, u, prop, nil)
+}
+
+func verifyUnitRenamed(ld *Loader, db *ContractDB, specs *SpecLib, u *Unit, prop string, rename map[string]string) (res *UnitResult) {
 	x := newExec(ld, db, u.Pkg, u.CF, specs)
+	x.rename = rename
 	defer func() {
 		if x.scratch != "" {
 			os.RemoveAll(x.scratch)
@@ -283,6 +292,7 @@ func verifyUnit(ld *Loader, db *ContractDB, specs *SpecLib, u *Unit, prop string
 		res.Obs = x.obs
 		res.Problems = x.problems
 		res.Assumed = sortedKeys(x.assumed)
+		res.Unknown = sortedKeys(x.unknownSeen)
 		res.Prelude = x.d.Prelude()
 		for _, o := range res.Obs {
 			o.Prelude = res.Prelude
